@@ -70,17 +70,12 @@ def check_ctor(model, R):
         return
     R.ob('C07.CTOR', f.qualname, '_requires_grad = %s' % norm(expr), not bad, 'the stored flag must be `requires_grad and gradient__` (differs for (requested, mode) in %s)' % bad, '%s:%d' % (f.mod.relpath, st.lineno))
     # floating point check dominates the store
-    guards = [n for n in body_walk(f.node) if isinstance(n, ast.If) and any(isinstance(x, ast.Raise) for x in n.body) and 'is_floating_point' in norm(n.test)]
+    guards = [n for n in body_walk(f.node) if isinstance(n, ast.If) and 'is_floating_point' in norm(n.test)]
     ok = False
-    for g in guards:
-        if not (cfg.dominates(g, st) and flagname):
-            continue
-        mapping = {flagname: ('F', True), 'self.is_floating_point': ('P', True), 'utils.is_floating_point(self.data)': ('P', True), 'utils.is_floating_point(data)': ('P', True)}
-        try:
-            if all(E.eval_bool(g.test, E.atom_valuation(mapping, dict(F=F, P=P))) == (F and not P) for F in (False, True) for P in (False, True)):
-                ok = True
-        except Incomplete:
-            pass
+    if flagname:
+        mapping = {flagname: ('F', True), 'self.is_floating_point': ('P', True), 'utils.is_floating_point(self.data)': ('P', True), 'utils.is_floating_point(data)': ('P', True),
+                   'self.is_floating_point()': ('P', True)}
+        ok, _why = E.guard_table(f, cfg, mapping, lambda a: a['F'] and not a['P'], [st])
     # the check must look at the data as STORED: every (re)binding of the data (dtype cast) precedes it
     rebinds = [n for n in body_walk(f.node) if isinstance(n, ast.Assign) and any(norm(t) in ('data', 'self.data') for t in n.targets)]
     for g in guards:
@@ -103,20 +98,8 @@ def _guard_ok(R, model, qual, mapping, raises_when, effect_pred, what):
     if not effects:
         R.incomplete_at('C07.GUARDS', qual, 'protected effect not found')
         return
-    atoms = sorted({a for a, _ in mapping.values()})
-    found = False
-    for g in guards:
-        try:
-            same = True
-            for vals in itertools.product((False, True), repeat=len(atoms)):
-                asg = dict(zip(atoms, vals))
-                if E.eval_bool(g.test, E.atom_valuation(mapping, asg)) != raises_when(asg):
-                    same = False
-            if same and all(cfg.dominates(g, e) for e in effects):
-                found = True
-        except Incomplete:
-            continue
-    R.ob('C07.GUARDS', qual, what, found, 'the rejecting guard must raise exactly in the stated case and dominate the effect it protects', f.loc)
+    found, why = E.guard_table(f, cfg, mapping, raises_when, effects)
+    R.ob('C07.GUARDS', qual, what, found, 'the rejecting guard must raise exactly in the stated case and dominate the effect it protects: %s' % why, f.loc)
 
 
 def check_guards(model, R):
